@@ -21,16 +21,22 @@ T round_pow2(T i)
 template <typename T, std::enable_if_t<std::is_integral_v<T>, bool> = true>
 T ipow(T i, T p)
 {
-    T r = 1;
+    // Multiply in an unsigned type of at least the width of `unsigned int`:
+    // narrower types are promoted to (signed) `int` before the multiplication,
+    // which overflows for e.g. 16-bit operands.
+    using U = std::make_unsigned_t<std::common_type_t<T, unsigned int>>;
+
+    U b = static_cast<U>(i);
+    U r = 1;
 
     for (; p; p >>= 1) {
         if (p & 1) {
-            r *= i;
+            r *= b;
         }
 
-        i *= i;
+        b *= b;
     }
 
-    return r;
+    return static_cast<T>(r);
 }
 }
